@@ -32,7 +32,7 @@ def explain(line):
     for i in range(nw):
         if w[2 * i] != w[2 * i + 1]: probs.append("a resource reporting Paused executed cycles: private counter %d -> %d" % (w[2 * i], w[2 * i + 1]))
     for i, r in enumerate(rs):
-        if not r[1]: probs.append("resource %d: join() did not return within 5 s after stop()" % i)
+        if not r[1]: probs.append("resource %d: join() did not return within 30 s after stop()" % i)
         if r[4] != 0: probs.append("resource %d saw a half-updated shared set (x <> y) in %d cycles" % (i, r[4]))
         if r[3] >= 0 and (r[0] != 5 or r[2] != 1): probs.append("resource %d after stop: state %d (5 = Stopped), retained data saved %d times" % (i, r[0], r[2]))
         if r[3] < 0 and (r[0] != 4 or r[2] != 0): probs.append("resource %d did not answer while paused but is in state %d with %d saves" % (i, r[0], r[2]))
@@ -74,7 +74,7 @@ def check(tier):
         "checker_cmd": "make -C coq Properties/C20.vo Extract/C20x.vo (coqc 8.16.1) + Print Assumptions gate",
         "trusted_base": vlib.TRUSTED_BASE, "theorems": pr["theorems"], "axioms": pr["axioms"],
         "evaluations": len(results), "distinct_nontrivial": len(set(r["id"].split("_")[1] for r in good if int(r["line"].split(":")[2].split()[0]) > 50)),
-        "rule": "2-4 free-running resource threads (spawn_with_shared, cycle interval 0) whose program tests x = y, then bumps x, a private counter and y; in half of the cases one resource divides by zero in its k-th cycle (k <= 400); a controller issues 2-14 pause / resume commands with random sleeps and spins, reads a paused resource's private counter twice, finally pauses everything, reads all counters and the shared pair, stops and joins every thread (5 s limit) and counts the store() calls of each resource's retain store; non-trivial = more than 50 cycles in total",
+        "rule": "2-4 free-running resource threads (spawn_with_shared, cycle interval 0) whose program tests x = y, then bumps x, a private counter and y; in half of the cases one resource divides by zero in its k-th cycle (k <= 400); a controller issues 2-14 pause / resume commands with random sleeps and spins, reads a paused resource's private counter twice, finally pauses everything, reads all counters and the shared pair, stops and joins every thread (30 s limit) and counts the store() calls of each resource's retain store; non-trivial = more than 50 cycles in total",
         "total_cycles_observed": sum(cyc), "max_cycles_in_a_case": max(cyc) if cyc else 0, "cases_with_a_faulted_resource": faulted,
         "paused_windows_checked": sum(int(r["line"].split(":")[2].split()[4]) for r in good),
         "samples": [r["line"][:200] for r in good[:2]], "judge_failures": len(bad),
